@@ -60,6 +60,9 @@ def corpus_item(corpus_seed, i):
         bad = rng.choice(['1 => zz:f()', '1 => (', '1 => math:', 'a[', '(1', '1 +', 'count(', '$', '1 => zz:f(2)', 'f(1',
                           "'a' => tns:g()", 'a/', '1 to', 'if (1) then', 'for $x in', 'map{1:', '[1,'])
         return {'kind': 'bad', 'v': version, 'text': bad, 'i': i}
+    if rng.random() < 0.02 and version != '1.0':
+        form = rng.choice(["p:t%d ( 'a' )", "p:t%d(: c :)('a')", "( p:t%d ( 'a' ) , p:t%d ( 'b' ) )", "/ r / p:t%d", "p:t%d # 1"])
+        return {'kind': 'regctor', 'v': version, 'text': form.replace('%d', str(i)), 'i': i}
     if rng.random() < 0.12:
         return {'kind': 'fixed', 'v': '3.1', 'tokens': rng.choice(FIXED).split(' '), 'layout_seed': rng.randrange(1 << 30), 'i': i}
     if rng.random() < 0.06:
@@ -141,6 +144,25 @@ def process_item(item, history=None):
     def violate(cls, sig, detail, extra=()):
         viol.append({'cls': cls, 'signature': sig, 'detail': detail, 'features': sorted(set(feats) | set(extra))})
 
+    if item['kind'] == 'regctor':
+        # a schema type constructor registered on an instance that has parsed before: tokens and trees as on a fresh
+        # instance where the same constructor was registered before the first parse
+        name = '{%s}t%d' % (P.NAMESPACES['p'], item['i'])
+        text = item['text']
+        parser.schema_constructor(name)
+        rec = outcome_of(parser, text, root)
+        sh = shared_parser(v, compat)
+        try:
+            sh.parse('1')
+        except Exception:
+            pass
+        sh.schema_constructor(name)
+        used = outcome_of(sh, text, root)
+        if used[:3] != rec[:3]:
+            violate('HISTORY', 'schema-constructor-registered-after-a-parse:' + v,
+                    '%r parses as %r on an instance that registered the constructor after a parse, as %r on a fresh one' % (
+                        text, used[:3], rec[:3]), ['needs-history'])
+        return {'i': item['i'], 'text': text, 'rec': rec[:3], 'shared': used[:3]}, viol
     if item['kind'] == 'bad':
         rec = outcome_of(parser, item['text'], root)
         used = outcome_of(shared_parser(v, compat), item['text'], root)
